@@ -24,7 +24,7 @@ type genProfile struct {
 	checkVHash *bool
 	cfgHook    func(t *rapid.T, c *Cfg) // last word on the configuration (C15: served subsets, keys per bucket)
 	kinds      []string                 // overrides the op mix
-	compress   bool // values and sizes focused on the server-side compression decision (C10)
+	compress   bool                     // values and sizes focused on the server-side compression decision (C10)
 	maxKeys    int
 }
 
